@@ -1,10 +1,10 @@
 SPECIFICATION Spec
 CONSTANTS
-  Key <- MCKey3
-  SizeKB <- MCSize3
-  PPKeys <- MCPP3
-  ValKeys <- MCVal3
-  Limits <- MCLimits
+  Key <- MCKey2
+  SizeKB <- MCSize2
+  PPKeys <- MCPP2
+  ValKeys <- MCVal2
+  Limits <- MCLimit1
   MB = 1000
   MaxFaults = 1
   MaxReqLen = 2
